@@ -229,8 +229,101 @@ def expansion_part(ck):
                               'why': f'parsing {text!r}: {out}', 'spec': 'LeftRec (expansions)'}, key='xbat' + src + out)
 
 
+OPT_PUBLISH_PROBE = r'''
+import json, sys, threading
+sys.setrecursionlimit(1500)
+import tatsu
+import tatsu.peg.base as base
+GS = {'expr': ("start = e $ ;\ne = e '+' t | t ;\nt = t '*' f | f ;\nf = /\\d+/ ;\n", '1+2*3+4'),
+      'indirect': ("start = x $ ;\nx = s | n ;\ns = x '+' n ;\nn = /\\d+/ ;\n", '1+2+3'),
+      'plain': ("start = {n}+ $ ;\nn = /\\d+/ ;\n", '1 2 3')}
+out = []
+for gname, (g, text) in GS.items():
+    in_analysis, resume = threading.Event(), threading.Event()
+    tl = threading.local()
+    real_init = base.Grammar.initialize
+
+    def initialize(self, *a, **k):
+        if getattr(tl, 'pause', False):
+            tl.pause = False
+            in_analysis.set()
+            resume.wait(6)
+        return real_init(self, *a, **k)
+    base.Grammar.initialize = initialize
+    try:
+        model = tatsu.compile(g, name='OP' + gname)
+        want = repr(tatsu.compile(g, name='OPref' + gname).parse(text))
+        res = {}
+
+        def run(name, pause):
+            tl.pause = pause
+            try:
+                res[name] = repr(model.parse(text))
+            except BaseException as e:
+                res[name] = type(e).__name__
+        t1 = threading.Thread(target=run, args=('t1', True))
+        t1.start()
+        reached = in_analysis.wait(6)
+        t2 = threading.Thread(target=run, args=('t2', False))
+        t2.start()
+        t2.join(1.2)
+        t2_left_during_analysis = not t2.is_alive()
+        resume.set()
+        t1.join(30)
+        t2.join(30)
+        run('later', False)
+        out.append({'g': gname, 'grammar': g, 'text': text, 'want': want, 'thread1_reached_analysis': reached,
+                    'thread2_returned_while_thread1_analysed': t2_left_during_analysis, 'res': res})
+    finally:
+        base.Grammar.initialize = real_init
+print(json.dumps(out))
+'''
+
+
+def opt_publish(ck):
+    """spec/OptPublish.tla: the order of copy / analyse / publish / release in Grammar.optimized().  TLC proves AnalysedBeforeUse for the order
+    of the code and refutes it for 'publish and release, then analyse'; the refuting behaviour (thread 1 inside the analysis, thread 2 entering
+    optimized()) is forced onto the real code in a fresh interpreter: thread 2 must not come back before the analysis has finished, and every
+    parse - both threads', and a later one - gives the sequential result."""
+    import json
+    import os
+    import subprocess
+    import sys
+    r1 = tlc.run_tlc('OptPublish', cfg='OptPublish', workers=2, timeout=300)
+    ck.add_tlc(r1, 'OptPublish (copy, analyse, publish, release: the order of the code)')
+    if r1.violated:
+        ck.violation({'kind': 'schedule', 'inputs': {'spec': 'OptPublish'}, 'expected': 'AnalysedBeforeUse, BuiltOnce, Finishes', 'observed': r1.violated,
+                      'trace': r1.trace[:30], 'spec': 'OptPublish!' + str(r1.violated)}, key='optpublish' + str(r1.violated))
+    r2 = tlc.run_tlc('OptPublish', cfg='OptPublishEarly', workers=2, timeout=300)
+    ck.notes['publish_before_analysis_refuted_by'] = r2.violated
+    if r2.violated != 'AnalysedBeforeUse':
+        raise tlc.MachineryError(f'OptPublish: the early-publication order is not refuted by AnalysedBeforeUse ({r2.violated})')
+    p = subprocess.run([sys.executable, '-c', OPT_PUBLISH_PROBE], env=dict(os.environ), capture_output=True, text=True, timeout=600)
+    try:
+        rows = json.loads(p.stdout.strip().splitlines()[-1])
+    except Exception:  # noqa: BLE001
+        raise tlc.MachineryError('OptPublish probe did not run: ' + (p.stdout + p.stderr)[-600:])
+    for r in rows:
+        ck.count(evaluations=3, traces=3, nontrivial=1)
+        if not r['thread1_reached_analysis']:
+            raise tlc.MachineryError(f"OptPublish probe: thread 1 never reached the analysis of the optimized copy ({r['g']})")
+        why = None
+        if r['thread2_returned_while_thread1_analysed']:
+            why = 'thread 2 left optimized() - and parsed - while thread 1 was still inside the analysis of the optimized copy (OptPublish: got = "raw")'
+        elif any(v != r['want'] for v in r['res'].values()):
+            why = 'a parse with the model whose first two parses overlapped does not give the sequential result'
+        if why:
+            ck.violation({'kind': 'schedule', 'inputs': {'grammar': r['grammar'], 'text': r['text'],
+                                                         'schedule': 'Read(1) Lock(1) Copy(1) [thread 1 held at the start of the analysis] Read(2) ...'},
+                          'expected': {'every parse': r['want'], 'thread 2 waits for the analysis': True},
+                          'observed': {'results': r['res'], 'thread 2 returned during the analysis': r['thread2_returned_while_thread1_analysed']},
+                          'why': why, 'spec': 'OptPublish!AnalysedBeforeUse'}, key='optpublish' + r['g'])
+    ck.notes['opt_publish_forced_schedules'] = len(rows)
+
+
 def run(tier):
     ck = Check('C16', tier)
+    opt_publish(ck)
     expansion_part(ck)
     gs = universe(tier, ck.seed)
     d = tlc.scratch_dir('leftrec')
